@@ -19,7 +19,7 @@ RULE = (
     'storm_total_rain_depth with the reference sum.  Time steps of one '
     'second, one day and two days; long records: one motif (a storm and a '
     'rise, two storms under one rise, one storm under two rises) at every '
-    'position of a quiet 1100-step record and within 4 steps of every '
+    'position of a quiet 1100-step record and within 5 steps of every '
     'multiple of 500 or 512 of an 8300-step record (thorough: at every '
     'position of the 8300-step record).  States = samples of '
     'the record (the reference automaton steps once per sample).  '
